@@ -22,7 +22,7 @@ EXHAUSTIVE = {"quick": True, "thorough": True}
 RULE = ("Grid (complete): starttls argument {False, True, 1, 'required' (truthy, not the True singleton)} x server STARTTLS support {no,yes} x SASL announcement variant "
         "(same pre/post; pre PLAIN -> post LOGIN only; pre none -> post PLAIN; pre PLAIN -> post none; no SASL capability; post look-alike names only; post names that are not UTF-8) x "
         "authmech {None, PLAIN, LOGIN, OAUTHBEARER, DIGEST-MD5, unknown} x one fault (or none) at a handshake step: greeting "
-        "{refuse, BYE, NO, silence, close, garbage, missing OK}, STARTTLS {NO, BYE, silence, close, OK followed by an injected plaintext capability block}, TLS handshake "
+        "{refuse, BYE, NO, silence, close, garbage, missing OK, a complete greeting whose final text is a {n+} literal (alone and with a wrong password)}, STARTTLS {NO, BYE, silence, close, OK followed by an injected plaintext capability block}, TLS handshake "
         "{SSLError, cert error, timeout, EOF}, post-TLS capabilities {BYE, NO, silence, close, garbage, missing OK, a complete listing with a line that is not UTF-8 / blank, a listing that arrives after the read timeout (alone, and with a wrong password)}, "
         "AUTHENTICATE {NO, BYE, silence, close}, verdict {NO, BYE, wrong password, NO carrying valid final SASL data}; BYEs also with a REFERRAL response code. Every cell runs the history: the 8 "
         "script methods before connect; connect; the 8 script methods + capability; a second connect on the same object "
@@ -53,10 +53,10 @@ SASL_VARIANTS = [
 ]
 AUTHMECHS = [None, "PLAIN", "LOGIN", "OAUTHBEARER", "X-UNKNOWN", "DIGEST-MD5"]
 FAULTS = [None] + \
-    [("greeting", k) for k in ("refuse", "bye", "no", "silent", "close", "garbage", "nook", "bye-referral")] + \
+    [("greeting", k) for k in ("refuse", "bye", "no", "silent", "close", "garbage", "nook", "bye-referral", "litplus", "litplus+badpw")] + \
     [("starttls", k) for k in ("NO", "BYE", "silent", "close", "inject", "BYE-referral", "NO-reassuring")] + \
     [("tls", k) for k in ("sslerror", "certerror", "timeout", "eof")] + \
-    [("postcaps", k) for k in ("bye", "no", "silent", "close", "garbage", "nook", "badline-utf8", "badline-blank", "late", "late+badpw")] + \
+    [("postcaps", k) for k in ("bye", "no", "silent", "close", "garbage", "nook", "badline-utf8", "badline-blank", "late", "late+badpw", "litplus+badpw")] + \
     [("authenticate", k) for k in ("NO", "BYE", "silent", "close", "BYE-referral")] + \
     [("verdict", k) for k in ("NO", "BYE", "badpw", "NO-sasl", "BYE-referral")]
 SECOND = ["refuse", "badpw", "ok", "greeting-close"]
@@ -143,7 +143,7 @@ class Hooks:
             if self.fault[1] == "bye-referral":
                 self.world.server.bye_with_referral = True
                 return "bye"
-            return self.fault[1]
+            return "litplus" if self.fault[1].startswith("litplus") else self.fault[1]
         return None
 
     def command(self, conn, dec, scope):
@@ -188,15 +188,17 @@ class Hooks:
     def postcaps(self, conn):
         if self._is("postcaps"):
             self.fired = True
-            return "late" if self.fault[1].startswith("late") else self.fault[1]
+            return "late" if self.fault[1].startswith("late") else ("litplus" if self.fault[1].startswith("litplus") else self.fault[1])
         return None
 
     def auth(self, conn, creds, ok):
         if self._is("verdict") and self.fault[1] == "badpw":
             self.fired = True
             return False
-        if self._is("postcaps") and self.fault[1] == "late+badpw":
+        if self._is("postcaps") and self.fault[1] in ("late+badpw", "litplus+badpw"):
             return False        # a late listing and, should the client carry on regardless, a wrong password
+        if self._is("greeting") and self.fault[1] == "litplus+badpw":
+            return False
         return ok
 
     def arm_early_reject(self, ch):
